@@ -120,6 +120,7 @@ def r1_r2_server(ctx):
         t = o.of_operand(c.args[1])
         pay = t[3][2] if is_call_term(t, "Frame::with_data") and len(t[3]) > 2 else None
         cut = [s_ for s_ in subterms(pay) if isinstance(s_, tuple) and s_ and s_[0] == "call" and s_[1].split("::")[-1] in ("split_off", "split_to", "slice", "slice_ref", "truncate", "drain", "index", "take", "get", "split_at")]
+        cut += [s_ for s_ in subterms(pay) if is_call_term(s_, "Bytes::new", "Bytes::default", "Vec::new", "String::new", "Default>::default", "Bytes::from_static")]      # an alternative that is empty by construction
         ctx.ob("R10.2", "proxy:failure-SYNACK-carries-the-whole-message|L%s" % c.line, pay is not None and not cut, c.site, "the payload is the failure text itself" if pay is not None and not cut else
                "the failure SYNACK's payload is a piece cut from the message with `%s`: for some (or all) messages that piece is empty, and an empty SYNACK tells the client the open succeeded — the front-end "
                "answers 'succeeded' for a destination that has no tunnel" % (cut[0][1].split("::")[-1] if cut else "?"))
@@ -325,6 +326,37 @@ def r8_version_independent_of_padding(ctx):
            "times out although the target was reached" % (bad[0][1], bad[0][2].norm.split("::")[-1]))
 
 
+def r8b_every_syn_is_registered(ctx):
+    from . import C02
+    """on a server session every SYN registers its stream: from the server-role edge of the Syn arm, every way out passes the
+    insertion into the stream table.  A guard that drops some SYNs (an id "not above the highest seen": ids are allocated
+    atomically but written later, so racing opens can reach the wire out of order) leaves an open never dialled and never answered"""
+    body = co(ctx, "R10.8", S + "handle_frame")
+    if body is None:
+        return
+    cfg, conds, o = ctx.cfg(body), ctx.conds(body), ctx.origins(body)
+    sw, arms = C02.arm_regions(ctx, body)
+    if not arms or "Syn" not in arms:
+        ctx.missing("R10.8", "Syn arm of handle_frame")
+        return
+    s0, own, allr = arms["Syn"]
+    server_e = []
+    for c in conds.all():
+        if c.block in own | {s0} and c.kind == "bool" and var_name(c.term) == "self.is_client":
+            server_e += c.succs_for(False)
+    ins = [c for c in calls_norm(body, "HashMap::insert") if c.bb in own]
+    exits = [b_ for b_ in allr if b_ not in own and any(p_ in own for p_ in cfg.preds(b_))] or body.return_blocks()
+    if not server_e or not ins:
+        ctx.missing("R10.8", "role test / table insertion in the Syn arm")
+        return
+    # error exits (a failed write of an answer) end the session and are C09's business; the success exits are what counts
+    ok_exits = [b_ for b_ in exits]
+    ok, p = cfg.must_pass(server_e, ok_exits, via_blocks=[c.bb for c in ins])
+    ctx.ob("R10.8", "Syn-arm:every-SYN-registers-its-stream", ok, ins[0].site, "from the server-role edge every way through the arm inserts the stream into the table" if ok else
+           "a server session can leave the Syn arm without registering the stream (a guard ahead of the insertion): that open is never handed to a handler, never dialled and never answered — the client waits "
+           "for its SYNACK timeout although the session is healthy", path=None if ok else render_path(body, p)[:12])
+
+
 def run(ctx):
     from . import C20 as _C20t
     _C20t.r12_subtractions(ctx, _C20t.input_reachable(ctx))   # no subtraction (sizes, Durations) that can underflow and kill the task that computes it
@@ -341,6 +373,9 @@ def run(ctx):
     C02.r3_allocator(ctx)    # racing opens on one session get distinct ids (each verdict reaches its own open)
     r8_version_independent_of_padding(ctx)
     C09.r1_locks(ctx)        # the open path cannot deadlock on its own guards when the SYN write fails (an open that never returns reports nothing)
+    r8b_every_syn_is_registered(ctx)
+    from . import C01 as _C01q
+    _C01q.r3_r4_recv_buffer(ctx)     # every complete frame in the receive buffer is dispatched before the loop waits for more input: an answer that has arrived is delivered
     r1_r2_server(ctx)
     r3_client_arm(ctx)
     r4_client_wait(ctx)
